@@ -113,6 +113,7 @@ func init() {
 			w["m.remove"] = 14
 			w["a.append"], w["a.remove"] = 2, 1
 			w["setlimit"] = []int{0, 1, 2}[r.Intn(3)]
+			w["copy"] = 2 // copies of maps with collision groups are maps with collision groups (structure, limit rule)
 			return &Profile{
 				Name: "collide", W: w, MaxRoots: r.Range(1, 2), Owners: []uint64{1, 2}[:r.Range(1, 2)],
 				RootMapShare: 1, MapShare: 0.5, NestProb: []float64{0, 0.05}[r.Intn(2)], MaxDepth: 1, WrapProb: 0.05,
